@@ -71,7 +71,7 @@ func c12Frags(data []byte, top []*ref.Box) []c12Frag {
 }
 
 // filtered concatenation of the boxes segment-mode encoding is expected to keep
-func c12Kept(data []byte, top []*ref.Box, types map[string]bool) []byte {
+func C12Kept(data []byte, top []*ref.Box, types map[string]bool) []byte {
 	var out []byte
 	for _, b := range top {
 		if types[b.Type] {
@@ -83,7 +83,7 @@ func c12Kept(data []byte, top []*ref.Box, types map[string]bool) []byte {
 
 var c12Corpus []*work.CorpusFile
 
-func c12Setup() error {
+func C12Setup() error {
 	if err := work.SetupPackager(); err != nil {
 		return err
 	}
@@ -296,7 +296,7 @@ func c12CorpusRun(r *sim.Run) {
 		r.Violate("c12-reencode-bytes", "%s: re-encoded file is not a box sequence: %v", cf.Name, err)
 		return
 	}
-	if a, b := c12Kept(out, topO, keep), c12Kept(stream, d.Top, keep); !bytes.Equal(a, b) {
+	if a, b := C12Kept(out, topO, keep), C12Kept(stream, d.Top, keep); !bytes.Equal(a, b) {
 		r.Violate("c12-reencode-bytes", "%s: init boxes + fragments of the re-encoded file differ from the input (first diff at %d of %d/%d)", cf.Name, firstDiff(a, b), len(a), len(b))
 		return
 	}
@@ -308,17 +308,26 @@ func c12CorpusRun(r *sim.Run) {
 		return
 	}
 	if out = enc(); out != nil {
-		c12CheckIndex(r, mode+":"+cf.Name, out, groups, refID, 0)
+		C12CheckIndex(r, mode+":"+cf.Name, out, groups, refID, 0)
 	}
 }
 
-func c12Run(r *sim.Run) {
+// C12Stream is one emitted fragmented stream with its ground truth.
+type C12Stream struct {
+	Mode      string
+	Stream    []byte
+	Groups    [][]uint32 // mfhd sequence numbers per expected segment
+	RefID     uint32
+	Top0      []*ref.Box
+	Emitted   []c12Frag
+	SegStarts []int64
+	MediaEnd  int64
+}
+
+// C12Build draws a delimiter mode among modes and assembles the stream of a packager production (nil after a violation).
+func C12Build(r *sim.Run, modes []string) *C12Stream {
 	t := r.T
-	if t.Chance(150) {
-		c12CorpusRun(r)
-		return
-	}
-	mode := c12Modes[t.Draw(len(c12Modes))]
+	mode := modes[t.Draw(len(modes))]
 	opts := work.PackOpts{MaxTracks: 3, MaxSegs: 4, MaxFrags: 3, MaxSamples: 4, Foreign: mode != "mfra", Styp: 2, NoEmptyTrack: false}
 	if mode == "styp" {
 		opts.Styp = 1
@@ -328,7 +337,7 @@ func c12Run(r *sim.Run) {
 	r.Guard("packager", func() { p, err = work.Package(r, opts) })
 	if err != nil {
 		r.Violate("packager-error", "a documented-valid API history failed: %v", err)
-		return
+		return nil
 	}
 	// reference track as the statement defines it: first video, else first audio, else first
 	refIdx := 0
@@ -459,6 +468,21 @@ func c12Run(r *sim.Run) {
 	}
 	r.Logf("mode=%s stream=%d bytes, %d fragments, expected grouping %v, ref track %d", mode, len(stream), len(emitted), groups, refID)
 	r.Event("mode", t.Draw(1), len(groups), len(emitted))
+	return &C12Stream{Mode: mode, Stream: stream, Groups: groups, RefID: refID, Top0: top0, Emitted: emitted, SegStarts: segStarts, MediaEnd: mediaEnd}
+}
+
+func c12Run(r *sim.Run) {
+	t := r.T
+	if t.Chance(150) {
+		c12CorpusRun(r)
+		return
+	}
+	cs := C12Build(r, c12Modes)
+	if cs == nil {
+		return
+	}
+	mode, stream, groups, refID, top0, emitted, segStarts, mediaEnd := cs.Mode, cs.Stream, cs.Groups, cs.RefID, cs.Top0, cs.Emitted, cs.SegStarts, cs.MediaEnd
+	var err error
 	// ---- decode
 	var flags mp4.DecFileFlags
 	switch mode {
@@ -566,15 +590,45 @@ func c12Run(r *sim.Run) {
 		r.Violate("c12-reencode-bytes", "re-encoded file is not a box sequence: %v", err)
 		return
 	}
-	if a, b := c12Kept(out, topO, keep), c12Kept(stream, top0, keep); !bytes.Equal(a, b) {
+	if a, b := C12Kept(out, topO, keep), C12Kept(stream, top0, keep); !bytes.Equal(a, b) {
 		r.Violate("c12-reencode-bytes", "mode %s: init boxes + fragments of the re-encoded file differ from the emitted ones (first diff at %d of %d/%d)", mode, firstDiff(a, b), len(a), len(b))
 		return
+	}
+	// ---- (2b) optionally the file is edited after sizes have been asked for: a sample is appended to one fragment
+	// (single-track, single-run fragments only: the documented use of AddFullSample). The index oracle below works on
+	// the output bytes alone, so it needs no knowledge of the edit.
+	edited := false
+	if t.Chance(250) {
+		type cand struct{ si, fi int }
+		var cands []cand
+		for si, sg := range f.Segments {
+			for fi, fr := range sg.Fragments {
+				if len(fr.Moof.Trafs) == 1 && len(fr.Moof.Traf.Truns) == 1 && fr.Moof.Traf.Trun.HasSampleDuration() && fr.Moof.Traf.Trun.HasSampleSize() {
+					cands = append(cands, cand{si, fi})
+				}
+			}
+		}
+		if len(cands) > 0 {
+			c := cands[t.Draw(len(cands))]
+			fr := f.Segments[c.si].Fragments[c.fi]
+			data := make([]byte, 1+t.Draw(24))
+			fs := mp4.FullSample{Sample: mp4.Sample{Flags: mp4.NonSyncSampleFlags, Dur: uint32(1 + t.Draw(2000)), Size: uint32(len(data))}, Data: data}
+			r.Guard("Size", func() { _ = f.Size() })
+			r.Guard("AddFullSample", func() { fr.AddFullSample(fs) })
+			r.Logf("edit: Size() asked, then a %d-byte sample of duration %d appended to segment %d fragment %d", len(data), fs.Dur, c.si, c.fi)
+			r.Event("edit", c.si, c.fi, len(data))
+			r.Probe("edited-after-size")
+			edited = true
+		}
 	}
 	// ---- (3) UpdateSidx history, then encode and check the index against the output bytes
 	n := 1 + t.Draw(2)
 	added := mode == "sidx" || mode == "multi-sidx" || mode == "interleaved-sidx"
 	for i := 0; i < n; i++ {
 		add, nz := t.Bool(), t.Bool()
+		if edited && i == 0 {
+			add = true
+		}
 		r.Guard("UpdateSidx", func() { err = f.UpdateSidx(add, nz) })
 		r.Logf("UpdateSidx(add=%v, nonZeroEPT=%v) -> %v", add, nz, err)
 		r.Event("UpdateSidx", btoi(add), btoi(nz))
@@ -591,11 +645,11 @@ func c12Run(r *sim.Run) {
 	if out == nil {
 		return
 	}
-	c12CheckIndex(r, mode, out, groups, refID, mediaEnd-segStarts[0])
+	C12CheckIndex(r, mode, out, groups, refID, mediaEnd-segStarts[0])
 }
 
-// c12CheckIndex locates the sidx and the segments in the OUTPUT bytes and checks the tiling.
-func c12CheckIndex(r *sim.Run, mode string, out []byte, groups [][]uint32, refID uint32, mediaLen int64) {
+// C12CheckIndex locates the sidx and the segments in the OUTPUT bytes and checks the tiling.
+func C12CheckIndex(r *sim.Run, mode string, out []byte, groups [][]uint32, refID uint32, mediaLen int64) {
 	d, err := ref.DemuxStream(out, nil)
 	if err != nil {
 		r.Violate("c12-sidx", "output with sidx is not demuxable: %v", err)
@@ -734,7 +788,7 @@ func init() {
 		Assumptions: []string{"delimiter modes are pure (no mixing of styp with sidx/mfra), because the statement does not define precedence", "mfra mode carries no foreign top-level boxes", "reference_ID and earliest_presentation_time values are not constrained by the statement and not checked"},
 		Real:        realLib, Stub: []string{"io.Reader/io.ReadSeeker (SimDisk handle incl. seek errors)", "unit stream assembly with raw delimiter boxes", "virtual device time"}, RealNoFault: realNoFault,
 		Runs:       map[string]int{"quick": 300000, "thorough": 25000000},
-		Setup:      c12Setup,
+		Setup:      C12Setup,
 		Run:        c12Run,
 		WantFaults: []string{"seek-eio", "read-short", "read-zero"},
 		WantProbes: []string{"sidx-tiling-checked", "sidx-first-offset-nonzero"},
